@@ -8,6 +8,34 @@ HERE = os.path.dirname(os.path.dirname(os.path.abspath(__file__)))
 TECH = "deterministic simulation with fault injection: "
 
 CHECKS = {
+    "C07": dict(
+        level="fault_enumeration",
+        text="(A) one really failing element (ill-formed / failing expression, send with unsupported type, malformed target or unknown invoke id, failing <if> condition, "
+             "failing <data>, promela division by zero) planted at a sampled position of a sampled executable block of a generated chart; the run is refined step by step "
+             "against the Appendix D model that is told which element fails: error event raised in order, rest of the block skipped, other blocks executed, interpreter "
+             "keeps running, no exception leaves step(). (B) seeded XML mutations of generated charts loaded and stepped under crash containment; a third of all runs in the "
+             "ASan+UBSan build.",
+        ref="DESIGN.md 6/C07",
+        note="fault positions are sampled (one per run), not enumerated per chart; transient datamodel failures (FaultyDataModel) are not built; failing transition conditions are not planted.",
+        technique=TECH + "planted failing elements and XML mutations over simulated histories, refinement against a fault-aware reference model, crash containment with sanitizers"),
+    "C13": dict(
+        level="exploration",
+        text="The monitor stream of every session of generated runs (both engines, deterministic histories and controller threads with cancel, planted failing elements in "
+             "40% of the runs) is parsed by a push-down acceptor (balanced and well nested, exits then transitions then entries inside a micro-step bracket, nothing outside "
+             "a bracket except event processing, invocation, stable-configuration and completion notices, one stable notice per macrostep) and cross-checked against "
+             "configurations, <log> lines and dequeued events.",
+        ref="DESIGN.md 6/C13",
+        note="completion does not report exited states through before/afterExitingState; the grammar does not demand that (DESIGN Appendix A.1).",
+        technique=TECH + "push-down acceptor and completeness cross-checks over the recorded monitor stream of simulated runs with planted failures and cancellation"),
+    "C02": dict(
+        level="exploration",
+        text="Recommendation 3.11 legality predicate on getConfiguration() after every step() of generated charts (biased to history, parallel, targetless and "
+             "multi-target transitions; only documents validate() accepts), for both micro-step engines, under deterministic histories and under controller threads "
+             "issuing receive/cancel at seeded decision points; plus root entered exactly once and never exited before completion, and remembered history only names "
+             "states that were active below a history's parent when it was exited.",
+        ref="DESIGN.md 6/C02",
+        note="the generated-C machine is not covered here; documents with a fatal validation issue are outside the quantifier and are skipped.",
+        technique=TECH + "invariant (legal configuration, root once, history sanity) evaluated after every step of simulated runs over generated charts and histories, both engines"),
     "C01": dict(
         level="exploration",
         text="Generated charts (<= 10 states, parallel/history/initial/final, internal/targetless/multi-target/eventless transitions, raise/send/cancel/assign/log/if, "
@@ -66,12 +94,9 @@ NOT_APPLICABLE = [
 
 # properties that will be claimed once their check exists; until then they are listed as not (yet) claimed
 PENDING = {
-    "C02": "not claimed yet: legality monitor under construction (DESIGN.md 6/C02)",
     "C03": "not claimed yet: engine differential under construction (DESIGN.md 6/C03)",
     "C04": "not claimed yet: generated-C host under construction (DESIGN.md 6/C04)",
     "C06": "not claimed yet: spin-simulation differential under construction (DESIGN.md 6/C06)",
-    "C07": "not claimed yet: fault-position enumeration under construction (DESIGN.md 6/C07)",
-    "C13": "not claimed yet: monitor grammar under construction (DESIGN.md 6/C13)",
     "C14": "not claimed yet: snapshot/restore enumeration under construction (DESIGN.md 6/C14)",
     "C15": "not claimed yet: storage-crossing JSON fault check under construction (DESIGN.md 6/C15)",
     "C20": "not claimed yet: perturbation differential under construction (DESIGN.md 6/C20)",
@@ -100,7 +125,7 @@ def main():
     na.sort(key=lambda x: x["property_id"])
     m = {
         "version": 1,
-        "setup_cmd": "make -C /verif -j16 plain",
+        "setup_cmd": "make -C /verif -j16 plain san",
         "hooks": {
             "guard": "USCXML_VERIF",
             "enable": "no source hooks in /repo: the seams are link-time wrappers (-Wl,--wrap) for pthread/clock calls, a simulated libevent (sim/simevent.cpp) and the uscxml::uuidGen global; /verif/Makefile builds usim from /repo's working tree with -DUSCXML_VERIF",
